@@ -151,6 +151,31 @@ func allocEscapes(a *ssa.Alloc) bool {
 				return true
 			}
 		case *ssa.UnOp, *ssa.FieldAddr, *ssa.IndexAddr, *ssa.DebugRef:
+		case *ssa.MakeClosure:
+			// captured by a closure that only reads the variable: all stores are
+			// still in this function
+			fn, _ := r.Fn.(*ssa.Function)
+			if fn == nil {
+				return true
+			}
+			for j, b := range r.Bindings {
+				if b != ssa.Value(a) {
+					continue
+				}
+				for _, fr := range *fn.FreeVars[j].Referrers() {
+					switch x := fr.(type) {
+					case *ssa.UnOp, *ssa.DebugRef:
+					case *ssa.FieldAddr:
+						for _, r2 := range *x.Referrers() {
+							if _, isLoad := r2.(*ssa.UnOp); !isLoad {
+								return true
+							}
+						}
+					default:
+						return true
+					}
+				}
+			}
 		default:
 			return true
 		}
